@@ -11,6 +11,10 @@ ANNOTATED = [
     '{\n  "a": 1, // {min: 0} - note\n  "b": 2\n}', '1 # comment', '{} # c', '[\n1 # c\n]', '### c ###\n1', '1\n### c ###', '@t', '@a | @b', '@t // {optional: false}',
     '{\n  @k: 1\n}', '{\n  "a": @t | @u // note\n}', '"s" /* {minLength: 1}\n - note */', '[\n  1, # one\n  2 # two\n] # end', '{\n  "a": { // {allOf: "@b"}\n  }\n}',
     '1 //', '1 // {min: 0} -', '{\n  "a": 1\n}\n# tail comment', '[] // {minItems: 0} - Description ', '42 /*\n  {nullable: true}\n*/',
+    # escapes inside the strings of an annotation (keys and values of the rule object, inline and block)
+    '"A" // {enum: ["\\u0041", "B"]}', '"A" /* {enum: ["\\u0041", "B"]} */', '1 // {"\\u006din": 0}', '"x" // {regex: "\\u0078"}', '"s" // {enum: ["s", "a\\\\b", "q\\"q"]}',
+    '{\n  "a": "A", // {enum: ["\\u0041"]} - note\n  "b": 2\n}', '"A" /* {enum: ["\\u0041"]}\n - note */', '"\\u0041" // {minLength: 1}', '{\n  "\\u0061": 1 // {min: 0}\n}',
+    '"A" // {or: [{type: "string", enum: ["\\u0041"]}, "integer"]}',
     # blanks between the value and the end of its line
     '{} #', '1 #', '{\n  "a": 1 #\n}', '1 # ',
     '@t ', '@t\t', '@a | @b ', '@a | @b\t ', '1 ', '"a"\t', '{} ', '[1] ', 'true  ', '1 // n ', '@t // n ', '{\n  "a": @t \n}', '[\n  @a | @b \n] ',
